@@ -190,7 +190,11 @@ def lower (p : Problem α) (v : Vars α) (instr : Instr α) : Exec (List (Constr
   | .declarePoint _ => .ok []
   | .declareCircle _ => .ok []
   | .declareArc _ => .ok []
-  | .line .. => .ok []
+  | .line a b => do
+    -- executor.rs: a line adds no constraint, but both endpoints must be known points
+    let _ ← datumPoint p v a
+    let _ ← datumPoint p v b
+    pure []
   | .circleRadius circ r => do
     let c ← datumPoint p v (circ ++ ".center")
     let rid ← datumDistance p v (circ ++ ".radius")
